@@ -29,6 +29,7 @@ EXPLANATION = (
     "R8 the dictionary value source prefers value over default by `is not None` (0 is a legal value); R11 ODVariable.__len__ per data type (default mapping length; shared with C04.R5); R10 structural assumptions shared by all properties: no class-level mutable object is mutated in place by instances, no method re-runs the constructor, logging statements cannot raise (typed eager formatting, divisions), no mutable default argument is kept or mutated, no new truth-value test of a None-able number, a look-up memory the pinned tree does not have is keyed by all its inputs (arithmetic keys folded over a grid of addresses) and, on the serving side, emptied somewhere."
     ' R6 also: PdoMaps.__init__ covers all 512 communication records; R2 also: every mapping entry is a new PdoVariable.'
     ' R10 includes the lock clauses (no SDO exchange while holding a lock a receive callback takes).'
+    ' R1 also: no write to the communication or mapping record sits in a finally/except block of save(); R3 also: an optional parameter is written whenever it is set (no other condition in force at the write), read() pairs follow a local.'
 )
 ASSUMPTIONS = [
     "not decided: device behaviour and SDO outcomes; a store inside try/except SdoAbortedError counts as attempted",
